@@ -33,6 +33,8 @@ var controlExpect = []struct {
 	{"R3", "CtlMutex#sync.Mutex.Lock", "violated"},
 	{"R4", "CtlGlobalWrite#write-verifcontrols.counter", "violated"},
 	{"R4", "CtlGlobalWrite#write-verifcontrols.registry", "violated"},
+	{"R4", "CtlGlobalMapDelete#write-verifcontrols.registry", "violated"},
+	{"R4", "CtlGlobalMapPassed#write-verifcontrols.registryInts", "violated"},
 	{"R6", "CtlFloat#float-", "violated"},
 	{"R11", "CtlLocalTimeYear#local-time-Year", "violated"},
 	{"R11", "CtlLocalTimeFormat#local-time-Format", "violated"},
